@@ -91,3 +91,40 @@ package server
 //@ call client.deliverMessage#1 assert [C01] old(client.server.hooks.OnMsgArrived) == nil ==> msg.Topic == (hasAlias && old(len(pub.TopicName)) == 0 ? string(old(client.aliasMapper[int(alias)])) : string(old(pub.TopicName))) && msg.QoS == old(pub.Qos) && msg.Retained == old(pub.Retain) && msg.Payload == old(pub.Payload) && srcClientID == old(client.opts.ClientID)
 
 //@ func defaultIterateOptions inline
+
+// pubrelHandler (C04): PUBREL(id) releases the identifier and is answered by exactly one PUBCOMP(id).
+//@ func (*client).pubrelHandler
+//@ props C04
+//@ let U = client.unackStore
+//@ requires client != nil && pubrel != nil && client.unackStore != nil
+//@ modifies ghost(U.$has), ghost(client.$nout), ghost(client.$lastOut)
+//@ ensures [C04] result == nil ==> (forall i uint16 :: U.$has[i] == (i != old(pubrel.PacketID) && old(U.$has[i])))
+//@ ensures [C04] result == nil ==> client.$nout == old(client.$nout) || (client.$nout == old(client.$nout) + 1 && client.$lastOut.(type *packets.Pubcomp) && client.$lastOut.(*packets.Pubcomp).PacketID == old(pubrel.PacketID))
+//@ ensures [C04] result != nil ==> client.$nout == old(client.$nout)
+
+// pingreqHandler: answered by a PINGRESP.
+//@ func (*client).pingreqHandler
+//@ props C01
+//@ requires client != nil && pingreq != nil
+//@ modifies ghost(client.$nout), ghost(client.$lastOut)
+//@ ensures [C01] client.$nout == old(client.$nout) || (client.$nout == old(client.$nout) + 1 && client.$lastOut.(type *packets.Pingresp))
+
+// ---------------------------------------------------------------------------
+// C13 — inbound Receive Maximum quota: quota = ReceiveMax - (QoS>0 PUBLISH packets not yet acknowledged).
+// A client that stays within the advertised Receive Maximum always finds quota > 0; the packet that exceeds
+// it is refused with 0x93 (Receive Maximum exceeded) and the quota is left alone.
+
+//@ func (*client).tryDecServerQuota
+//@ props C13
+//@ requires [C13] client != nil && client.opts != nil && client.serverReceiveMaximumQuota <= client.opts.ReceiveMax
+//@ modifies client.serverReceiveMaximumQuota
+//@ ensures [C13] old(client.serverReceiveMaximumQuota) == 0 ==> result != nil && result.(type *codes.Error) && result.(*codes.Error).Code == 147 && client.serverReceiveMaximumQuota == 0
+//@ ensures [C13] old(client.serverReceiveMaximumQuota) > 0 ==> result == nil && client.serverReceiveMaximumQuota == old(client.serverReceiveMaximumQuota) - 1
+//@ ensures [C13] client.serverReceiveMaximumQuota <= client.opts.ReceiveMax
+
+//@ func (*client).addServerQuota
+//@ props C13
+//@ requires [C13] client != nil && client.opts != nil && client.serverReceiveMaximumQuota <= client.opts.ReceiveMax
+//@ modifies client.serverReceiveMaximumQuota
+//@ ensures [C13] client.serverReceiveMaximumQuota == min(old(client.serverReceiveMaximumQuota) + 1, int(client.opts.ReceiveMax))
+//@ ensures [C13] client.serverReceiveMaximumQuota <= client.opts.ReceiveMax
